@@ -825,7 +825,7 @@ class Translator:
                 return ("(" + " :: ".join([t for t, _ in parts] + ["(@nil (T A))"]) + ")", "vec")
             self.bad("macro `%s!` in expression position" % e[1])
         if k == "struct":
-            s = self.tb.STRUCTS.get(e[1])
+            s = self.spec.get("structs", {}).get(e[1]) or self.tb.STRUCTS.get(e[1])
             if s is None and e[1] == "Self":
                 cands = [v for v in self.tb.STRUCTS.values() if v[2] == self.selfty]
                 s = cands[0] if len(cands) == 1 else None
